@@ -213,8 +213,8 @@ def _map_agreement(run, w, R1, fn, site, emit, prep_call, schema, overrides):
   run.ob(R1, q, "rename map iterates %s" % c_it, "the map is built from the very collection of "
          "update pairs the emission loop iterates (%s)" % it_text, c_it == it_text, fi=fn.fi,
          node=coll.node)
-  same_idiom = len(c_guard) == len(e_guard) and \
-      all(a.startswith("has_diff_value(") and pol for (a, pol) in c_guard + e_guard)
+  same_idiom = any(a.startswith("has_diff_value(") and pol for (a, pol) in c_guard) and \
+      any(a.startswith("has_diff_value(") and pol for (a, pol) in e_guard)
   if c_guard != e_guard and not same_idiom:
     raise AnalysisError("%s: filter of the rename map (%s) and emission guard (%s) use different "
                         "idioms; cannot compare" % (q, c_guard, e_guard))
@@ -382,7 +382,8 @@ def r2_registries(run, w):
   handled = None
   for n in walk_no_nested(pgn.node):
     if isinstance(n, ast.Compare) and len(n.ops) == 1 and isinstance(n.ops[0], ast.In) and \
-        text(n.left) == "node.arg" and isinstance(n.comparators[0], ast.Tuple):
+        isinstance(n.left, ast.Attribute) and n.left.attr == "arg" and \
+        isinstance(n.comparators[0], (ast.Tuple, ast.List, ast.Set)):
       handled = tuple(e.value for e in n.comparators[0].elts if isinstance(e, ast.Constant))
   if not handled:
     raise AnalysisError("codebuilder.parse_grist_names: the keyword set handled for "
@@ -419,9 +420,10 @@ def r2_registries(run, w):
     if name.startswith("_"):
       continue
     kinds = set()
+    fview = H.View(w.fn_of(fi))
     for s in walk_no_nested(fi.node):
       if isinstance(s, ast.Return) and s.value is not None:
-        v = s.value
+        v = fview.res(s.value)
         if isinstance(v, ast.Call) and endswith(dotted(v.func), "_rset._bisect_find",
                                                 "_rset._find_eq", "_rset._at"):
           kinds.add("record")
@@ -537,7 +539,7 @@ def r3_positions(run, w):
   # only names that are being renamed produce a patch
   facts = v.facts_at(patches[0], start=tm.head, mapping=tm)
   run.ob(R3, q, "if <new name>: <patch>", "a name that is not being renamed produces no patch",
-         (new_t, True) in facts or ("%s is None" % new_t, False) in facts, fi=fn.fi,
+         (new_t, True) in facts or H.canon_atom("%s is None" % new_t, False) in facts, fi=fn.fi,
          node=patches[0])
   # the text patched is the formula of the column the name was found in
   rec_t = None
